@@ -1222,7 +1222,7 @@ func genConc(prop string, seed uint64, tier, outDir string, count int) error {
 			meta.OpHist["stream:"+pattern]++
 		}
 		meta.OpHist["elem:"+elemName(prog.elem)]++
-		if hasSpecial(progCodes(prog)[1:]) {
+		if progHasSpecial(prog) {
 			meta.OpHist["programs with a zero/special value"]++
 		}
 		c := runCase(prog, r.fork(), shape, length, fan)
